@@ -307,6 +307,32 @@ def cpStep (_st : Unit) (line : String) (t : Tally) : Except String (Unit × Tal
     else .ok ((), t)
   | _ => .error "unknown line"
 
+/-! ### conc-resize: a Compute in progress while the table is resized (C15, C02) -/
+
+def czStep (_st : Unit) (line : String) (t : Tally) : Except String (Unit × Tally) :=
+  let ws := splitWs line
+  match ws with
+  | "compute" :: rest =>
+    let g := natOf rest
+    let t := t.bump "computes"
+    if g "calls" != 1 then .error s!"C15: the remapping function of one Compute call ran {g "calls"} times (key {g "key"})"
+    else if (kvOf rest "retok").getD "" != "true" || g "ret" != g "want" then
+      .error s!"C15: Compute({g "key"}) returned {g "ret"} {(kvOf rest "retok").getD ""}, its function produced {g "want"}"
+    else if (kvOf rest "getok").getD "" != "true" || g "get" != g "want" then
+      .error s!"C15/C02: the value written by a Compute that was in progress during a resize is lost: key {g "key"} reads {g "get"} {(kvOf rest "getok").getD ""}, written {g "want"}"
+    else .ok ((), t)
+  | "table" :: rest =>
+    let g := natOf rest
+    let t := (t.bump "tables").bump "entries" (g "want")
+    let t := t.bump (if (kvOf rest "grow").getD "" == "true" then "grow_rounds" else "shrink_rounds")
+    if g "wrong" != 0 then .error s!"C15: iteration yields {g "wrong"} entries that were never written (or stale values) after a resize"
+    else if g "missing" != 0 then .error s!"C15: {g "missing"} written entries cannot be read back after a resize"
+    else if g "all" != g "want" then .error s!"C15: iteration yields {g "all"} entries, {g "want"} were written"
+    else if g "size" != g "want" then .error s!"C15: EstimatedSize = {g "size"}, {g "want"} entries are present"
+    else .ok ((), t)
+  | "round" :: _ => .error "C15: a Compute or a writer never returned while the table was being resized"
+  | _ => .error "unknown line"
+
 /-! ### ring (sequential) and conc-ring (delivery log) -/
 
 def rgStep (r : Impl.Ring.Ring) (line : String) (t : Tally) : Except String (Impl.Ring.Ring × Tally) :=
@@ -408,6 +434,7 @@ structure CfSt where
   base : Nat := 0
   loads : List (Nat × Nat × Nat) := []        -- key, enter, exit
   calls : List (Nat × Nat) := []              -- start, end of every caller of the round
+  kills : List (Nat × Nat) := []              -- key, stamp of every invalidation / write of the round
   deriving Inhabited
 
 /-- C08 allows a second, NON-overlapping load of a key whose first load succeeded only for a caller that may have missed
@@ -425,12 +452,20 @@ def cfStep (st : CfSt) (line : String) (t : Tally) : Except String (CfSt × Tall
   let ws := splitWs line
   match ws with
   | "round" :: _ :: rest =>
-    .ok ({ outcome := (kvOf rest "outcome").getD "", base := natOf rest "base", loads := [] }, t.bump s!"rounds_{(kvOf rest "outcome").getD ""}")
+    .ok ({ outcome := (kvOf rest "outcome").getD "", base := natOf rest "base", loads := [], kills := [] }, t.bump s!"rounds_{(kvOf rest "outcome").getD ""}")
+  | ["kill", k, s] => .ok ({ st with kills := (k.toNat!, s.toNat!) :: st.kills }, t.bump "kills")
+  | "supersede" :: rest =>
+    -- while the second load (started after the invalidation) is in flight, a third caller must join it
+    if (kvOf rest "second").getD "" == "true" && natOf rest "loads_while_second_in_flight" > 2 then
+      .error s!"C08: a Get arriving while a load was in flight started another loader execution ({natOf rest "loads_while_second_in_flight"} executions) although nothing was written or invalidated in between"
+    else .ok (st, t.bump "supersede_rounds")
   | ["load", k, enter, exit, _] =>
     let k := k.toNat!; let en := enter.toNat!; let ex := exit.toNat!
     -- loader executions for one key must not overlap in time (no write, invalidation or eviction happens in these runs)
-    match st.loads.find? (fun (k', en', ex') => k' == k && en < ex' && en' < ex && (en', ex') != (en, ex)) with
-    | some (_, en', ex') => .error s!"C08: two loader executions for key {k} overlap in time: [{en'}, {ex'}] and [{en}, {ex}]"
+    -- … unless the key was written / invalidated between the starts of the two executions
+    let killedBetween (a b : Nat) : Bool := st.kills.any (fun (k', s) => k' == k && min a b < s && s < max a b)
+    match st.loads.find? (fun (k', en', ex') => k' == k && en < ex' && en' < ex && (en', ex') != (en, ex) && !killedBetween en en') with
+    | some (_, en', ex') => .error s!"C08: two loader executions for key {k} overlap in time: [{en'}, {ex'}] and [{en}, {ex}] and the key was not written, invalidated or evicted in between"
     | none =>
       let t := t.bump "loader_invocations"
       let t := if st.loads.any (fun (k', en', _) => k' == k && en' != en) then t.bump "sequential_reloads" else t
@@ -493,6 +528,7 @@ def dispatch (cmd : String) (_args : List String) (h : IO.FS.Stream) : IO UInt32
   | "concflight" => loop h ({} : CfSt) cfStep {} "" 0 false {}; return 0
   | "conclin" => loop h ({} : LnSt) lnStep {} "" 0 false {}; return 0
   | "concpolicy" => loop h () cpStep () "" 0 false {}; return 0
+  | "concresize" => loop h () czStep () "" 0 false {}; return 0
   | "concmpsc" => loop h ({} : CmSt) cmStep {} "" 0 false {}; return 0
   | "concdrain" => loop h () cdStep () "" 0 false {}; return 0
   | "policy" => loop h ({} : Impl.Policy.Policy) plStep {} "" 0 false {}; return 0
